@@ -10,7 +10,7 @@ use std::path::{Path, PathBuf};
 use std::sync::atomic::{AtomicU64, Ordering};
 
 pub const CHECKPOINT_EVERY: usize = 200;
-pub const WATCHDOG_SECS: u64 = 10;
+pub const WATCHDOG_SECS: u64 = 20;
 pub const EXIT_WATCHDOG: i32 = 97;
 
 pub fn agg_to_json(a: &Agg) -> Value {
@@ -52,6 +52,13 @@ pub struct Death {
 }
 
 static CASE_STARTED: AtomicU64 = AtomicU64::new(0);
+
+/// Restart the watchdog clock (called per operation inside a job).
+pub fn case_tick() {
+    if CASE_STARTED.load(Ordering::SeqCst) != 0 {
+        CASE_STARTED.store(now_ms(), Ordering::SeqCst);
+    }
+}
 
 fn now_ms() -> u64 {
     std::time::SystemTime::now().duration_since(std::time::UNIX_EPOCH).unwrap().as_millis() as u64
